@@ -307,3 +307,59 @@ def check_zip_before_filter(ctx, F, rule="E-FFI.zip"):
                                                  "the %s of `zip` has already been shortened by `%s`: later elements are paired "
                                                  "with the wrong partner" % bad))
     return n
+
+
+THIN_EXCEPTIONS = {
+    # exported function (closure numbers stripped) -> reason for its own data-dependent branch
+    "oxidd_ffi_c::bdd::oxidd_bdd_manager_name_to_var": "maps the name bookkeeping's Option<VarNo> to the C sentinel",
+    "oxidd_ffi_c::bcdd::oxidd_bcdd_manager_name_to_var": "maps the name bookkeeping's Option<VarNo> to the C sentinel",
+    "oxidd_ffi_c::zbdd::oxidd_zbdd_manager_name_to_var": "maps the name bookkeeping's Option<VarNo> to the C sentinel",
+    "oxidd_ffi_c::bdd::oxidd_bdd_manager_set_var_order": "chooses the sequential / concurrent reordering variant",
+    "oxidd_ffi_c::bcdd::oxidd_bcdd_manager_set_var_order": "chooses the sequential / concurrent reordering variant",
+    "oxidd_ffi_c::zbdd::oxidd_zbdd_manager_set_var_order": "chooses the sequential / concurrent reordering variant",
+    "oxidd_ffi_c::zbdd::oxidd_zbdd_make_node::{closure}": "the documented ownership-taking entry point",
+}
+
+
+def check_thin_wrappers(ctx, F, rule="E-FFI.thin"):
+    """The C entry points are thin: besides null-pointer checks and the propagation of Option / Result values they have
+    no decisions of their own, so every call behaves like the Rust method it wraps.  A data-dependent branch in an
+    exported function (or in a closure defined in it) -- a fast path, a special case for empty input -- is where the C
+    API starts to differ from the Rust API.  Reviewed exceptions are listed with their reason."""
+    n = 0
+    for fid, m in sorted(F.mir.items()):
+        base = fid.split("::{closure")[0]
+        if not (fid.startswith("oxidd_ffi_c::") and (F.fns.get(base) or {}).get("no_mangle")):
+            continue
+        B = cfg.Body(m)
+        own = []
+        for i in sorted(B.reach):
+            b = m["blocks"][i]
+            t = b["t"]
+            if b["c"] or t["k"] != "switch":
+                continue
+            d = t["d"].get("mv", t["d"].get("cp"))
+            dl = d if isinstance(d, int) else (d.get("l") if isinstance(d, dict) else None)
+            ok = False
+            for bb in m["blocks"]:
+                for s in bb["s"]:
+                    if s.get("lhs") == dl and (s.get("rv") or {}).get("k") == "discr":
+                        ok = True
+                tt = bb["t"]
+                if tt.get("k") == "call" and tt.get("d") == dl and \
+                        re.search(r"is_null$|::is_some$|::is_none$|::is_ok$|::is_err$", cfg.callee_name(tt) or ""):
+                    ok = True
+            if not ok:
+                own.append(i)
+        n += 1
+        key = re.sub(r"\{closure#\d+\}", "{closure}", fid)
+        if own and key in THIN_EXCEPTIONS:
+            ctx.ob(rule, "%s:%s" % (rule, key), True, "reviewed exception: %s" % THIN_EXCEPTIONS[key])
+        elif own:
+            ctx.ob(rule, "%s:%s" % (rule, key), False,
+                   "%s (%s): the exported function takes %d data-dependent decision(s) of its own (not a null check, not the "
+                   "propagation of an Option/Result): on that path the C call no longer behaves like the Rust method it wraps"
+                   % (fid, F.where(fid), len(own)))
+        else:
+            ctx.ob(rule, "%s:%s" % (rule, key), True, "thin", nontrivial=False)
+    return n
